@@ -149,6 +149,33 @@ def error_statuses(W, body, eterm, val):
         return out
     if "Future::poll" in P.show(x) and "StreamExt::next" in P.show(x):
         return {"PayloadError(4xx, TB-actix)"}
+    ac = awaited_call(x)
+    if ac is not None and (ac[1] + "::{closure#0}") in W.prog.bodies:
+        # error of an awaited workspace async fn: the error exits of its coroutine body
+        b2 = W.prog.bodies[ac[1] + "::{closure#0}"]
+        g2 = W.gea(b2)
+        out = set()
+        for site, term in S.exits(W, b2):
+            if not S.is_error_exit(term):
+                continue
+            mm = m(pat.adt("Result", "Err", ("0", V("e"))), term)
+            if mm is not None:
+                st = ctor_status(W, mm["e"])
+            else:
+                st = None
+                mr = m(call(S.FROM_RESIDUAL, V("e")), term)
+                if mr is not None:
+                    st = set()
+                    for v2 in g2.vals_at(site) or [{}]:
+                        s2 = error_statuses(W, b2, mr["e"], v2)
+                        if s2 is None:
+                            st = None
+                            break
+                        st |= s2
+            if st is None:
+                return None
+            out |= st
+        return out or None
     return None
 
 
@@ -270,7 +297,10 @@ def handler_outcomes(W, module):
                 e = mm["e"]
                 if e[0] == "call" and e[1] == SERVER_ERROR_TO_ACTIX:
                     r = fn_statuses(W, SERVER_ERROR_TO_ACTIX, by_variant=True)
-                    vs = val.get(("VARIANT", e[3][0]))
+                    # atoms are keyed by the unresolved term (phi resolution may have rewritten sub-terms)
+                    mraw = m(pat.adt("Result", "Err", ("0", V("e"))), term)
+                    eraw = mraw["e"] if mraw is not None and mraw["e"][0] == "call" else e
+                    vs = val.get(("VARIANT", eraw[3][0])) or val.get(("VARIANT", e[3][0]))
                     if r and vs and all(v in r[1] for v in vs):
                         o.status = set()
                         for v in vs:
@@ -537,7 +567,7 @@ def storage_reaching_calls(W, body):
 
 
 def c15_refuse(rep, W, rule="C15.REFUSE"):
-    floors = {"add_version": 5, "add_snapshot": 5, "get_child_version": 1, "get_snapshot": 1}
+    floors = {"add_version": 3, "add_snapshot": 3, "get_child_version": 1, "get_snapshot": 1}   # content type, client id, + body refusals (possibly inside a helper)
     for module in WD.HANDLER_MODULES:
         body, g, opbb, opterm, outs = handler_outcomes(W, module)
         fn = S.short_fn(body)
@@ -592,6 +622,98 @@ def c15_refuse(rep, W, rule="C15.REFUSE"):
     rep.ob(rule, (S.short_fn(hb), "no-storage-access"), not storage_reaching_calls(W, hb), "client_id_header reaches no storage call", where(hb))
 
 
+
+ACC_TYPES = {
+    "bytes::bytes_mut::BytesMut": ("bytes::bytes_mut::BytesMut::extend_from_slice", "bytes::bytes_mut::BytesMut::len", "bytes::bytes_mut::BytesMut::new"),
+    "alloc::vec::Vec<u8>": ("alloc::vec::Vec::<T, A>::extend_from_slice", "alloc::vec::Vec::<T, A>::len", "alloc::vec::Vec::<T>::new"),
+}
+POLL = "core::future::future::Future::poll"
+
+
+class Accum:
+    """Where a write handler accumulates the request body: in the handler itself, or in a workspace-local async
+    helper whose awaited Ok value is what the handler hands on (`let body = read_body(payload, MAX).await?`)."""
+
+    def __init__(self):
+        self.handler = None     # handler coroutine body
+        self.body = None        # body containing the accumulation loop
+        self.local = None       # accumulator local in self.body
+        self.ty = None
+        self.payload = None     # payload argument term of the Op call (in the handler)
+        self.helper = None      # (fn key, call bb in handler, arg terms) when via helper
+        self.value_in_handler = None   # term that denotes the accumulated bytes in the handler
+
+
+def accumulators(W, body):
+    pv = W.prov(body)
+    return [l for l in pv.mutborrow if body.locals[l]["ty"] in ACC_TYPES]
+
+
+def awaited_call(t):
+    """ok(ok(poll(Mut(awaitee := CALL)))) / ok(poll(..CALL..)) -> CALL term of a workspace async fn, else None."""
+    x = t
+    n = 0
+    while x[0] in ("ok", "mut") and n < 6:
+        x = x[1] if x[0] == "ok" else x[3]
+        n += 1
+    if x[0] == "call" and x[1] == POLL and x[3]:
+        y = x[3][0]
+        while y[0] == "mut":
+            y = y[3]
+        if y[0] == "call":
+            return y
+    return None
+
+
+def find_accumulation(W, module):
+    h = W.handler(module)
+    pv = W.prov(h)
+    ops = S.sites_of(h, WD.op(WD.HANDLER_OP[module]))
+    if len(ops) != 1:
+        return None, "expected exactly one call of Server::%s" % WD.HANDLER_OP[module]
+    a = Accum()
+    a.handler = h
+    a.payload = pv.arg_terms(ops[0][0])[-1]
+    pt = a.payload
+    if pt[0] == "mut" and h.locals[pt[1]]["ty"] in ACC_TYPES:
+        a.body, a.local, a.ty, a.value_in_handler = h, pt[1], h.locals[pt[1]]["ty"], pt
+        return a, None
+    call_ = awaited_call(pt[3] if pt[0] == "mut" else pt)
+    if call_ is None:
+        return None, "payload passed to the operation is %s: neither a local accumulator nor the awaited result of a helper" % P.show(pt)[:100]
+    key = call_[1]
+    cb = W.prog.bodies.get(key + "::{closure#0}")
+    if cb is None:
+        return None, "payload comes from %s, which is not a workspace async fn" % key
+    accs = accumulators(W, cb)
+    if len(accs) != 1:
+        return None, "helper %s has %d body accumulators (need exactly one)" % (key, len(accs))
+    a.body, a.local, a.ty = cb, accs[0], cb.locals[accs[0]]["ty"]
+    a.helper = (key, call_[2], call_[3])
+    a.value_in_handler = pt
+    # the helper returns its accumulator
+    okret = False
+    for site, term in S.exits(W, cb):
+        mm = m(pat.adt("Result", "Ok", ("0", V("x"))), term)
+        if mm is not None and mm["x"][0] == "mut" and mm["x"][1] == a.local:
+            okret = True
+    if not okret:
+        return None, "helper %s does not return its accumulator unchanged" % key
+    return a, None
+
+
+def resolve_limit(W, acc, t):
+    """Integer value of the limit term as seen from the accumulation body (constant, or a helper parameter
+    that every caller binds to a constant)."""
+    if t[0] == "const" and isinstance(t[2], int):
+        return t[2]
+    if t[0] == "upvar" and acc.helper is not None:
+        args = acc.helper[2]
+        if t[1] < len(args) and args[t[1]][0] == "const" and isinstance(args[t[1]][2], int):
+            return args[t[1]][2]
+    return None
+
+
 def body_local(W, body):
     """(local index, mutator list) of the request-body accumulator: the BytesMut handed out by &mut."""
     pv = W.prov(body)
@@ -602,75 +724,76 @@ def body_local(W, body):
 def c15_bound(rep, W, rule="C15.BOUND"):
     maxes = {}
     for module in ("add_version", "add_snapshot"):
-        body = W.handler(module)
-        fn = S.short_fn(body)
+        hbody = W.handler(module)
+        hfn = S.short_fn(hbody)
+        acc, why = find_accumulation(W, module)
+        if acc is None:
+            rep.fail(rule, (hfn, "accumulator"), "cannot locate the request-body accumulation: %s" % why, where(hbody))
+            continue
+        body = acc.body
+        fn = S.short_fn(body) if acc.helper is None else hfn + " via " + S.short_fn(body)
         g = W.gea(body)
         pv = W.prov(body)
-        cands = body_local(W, body)
-        if len(cands) != 1:
-            rep.fail(rule, (fn, "accumulator"), "expected exactly one BytesMut accumulator, found %d" % len(cands), where(body))
-            continue
-        bl = cands[0]
+        bl = acc.local
+        ext_name, len_name, _ = ACC_TYPES[acc.ty]
         muts = pv.mutators(bl)
-        ext = [(bb, c, ai) for bb, c, ai in muts if c == "bytes::bytes_mut::BytesMut::extend_from_slice"]
-        other = [(c, body.line_of_block(bb)) for bb, c, ai in muts if c not in ("bytes::bytes_mut::BytesMut::extend_from_slice",)]
-        rep.ob(rule, (fn, "only-append"), len(ext) >= 1 and not other,
+        ext = [(bb, c, ai) for bb, c, ai in muts if c == ext_name]
+        other = [(c, body.line_of_block(bb)) for bb, c, ai in muts if c != ext_name]
+        rep.ob(rule, (hfn, "only-append"), len(ext) >= 1 and not other,
                "the accumulator is mutated only by extend_from_slice (%d site(s)); other mutators: %s" % (len(ext), other or "none"), where(body))
         for bb, c, ai in ext:
             args = pv.arg_terms(bb)
             chunk = args[1]
-            # the guard: NOT (len(body) + len(chunk) > MAX), established after the last mutation
             found = None
-            for a in g.atoms:
-                if a[0] != "CMP":
+            for at in g.atoms:
+                if at[0] != "CMP":
                     continue
-                lo, hi = a[2], a[3]
-                for (cst, summ, form) in ((lo, hi, "max<sum" if a[1] == "Lt" else "max<=sum"), (hi, lo, "sum<max" if a[1] == "Lt" else "sum<=max")):
-                    if cst[0] == "const" and isinstance(cst[2], int) and _is_len_sum(summ, bl, chunk):
-                        found = (a, cst, form)
+                lo, hi = at[2], at[3]
+                for (cst, summ, form) in ((lo, hi, "max<sum" if at[1] == "Lt" else "max<=sum"), (hi, lo, "sum<max" if at[1] == "Lt" else "sum<=max")):
+                    lim = resolve_limit(W, acc, cst)
+                    if lim is not None and _is_len_sum(summ, bl, chunk, len_name):
+                        found = (at, lim, form)
             if found is None:
-                rep.fail(rule, (fn, "size-check", S.ordinal_key(body, c, bb)), "no comparison of len(body)+len(chunk) against a constant limit found for this append", where(body, bb))
+                rep.fail(rule, (hfn, "size-check", S.ordinal_key(body, c, bb)), "no comparison of len(body)+len(chunk) against a constant limit found for this append", where(body, bb))
                 continue
-            a, cst, form = found
-            maxes[module] = cst[2]
+            at, lim, form = found
+            maxes[module] = lim
             if form == "max<sum":
-                f = ("is", a, False)
-                strict_ok = True
+                f, strict_ok = ("is", at, False), True
             elif form == "sum<=max":
-                f = ("is", a, True)
-                strict_ok = True
+                f, strict_ok = ("is", at, True), True
             else:
-                f = ("is", a, False) if form == "max<=sum" else ("is", a, True)
-                strict_ok = False
-            rep.ob(rule, (fn, "append-guarded", S.ordinal_key(body, c, bb)), S.all_vals(g, (bb, "T"), f),
+                f, strict_ok = (("is", at, False) if form == "max<=sum" else ("is", at, True)), False
+            rep.ob(rule, (hfn, "append-guarded", S.ordinal_key(body, c, bb)), S.all_vals(g, (bb, "T"), f),
                    "every append is preceded (after the previous append) by the size test; offending valuations: %s" % S.failing_vals(g, (bb, "T"), f)[:1], where(body, bb))
-            rep.ob(rule, (fn, "limit-inclusive", S.ordinal_key(body, c, bb)), strict_ok,
+            rep.ob(rule, (hfn, "limit-inclusive", S.ordinal_key(body, c, bb)), strict_ok,
                    "comparison form `%s`: a body of exactly the limit must be accepted (strict > required)" % form, where(body, bb))
-            rep.ob(rule, (fn, "limit-value", S.ordinal_key(body, c, bb)), cst[2] == 100 * 1024 * 1024,
-                   "limit constant evaluates to %s; the protocol limit is 104857600 (100 MiB)" % cst[2], where(body, bb))
+            rep.ob(rule, (hfn, "limit-value", S.ordinal_key(body, c, bb)), lim == 100 * 1024 * 1024,
+                   "limit evaluates to %s; the protocol limit is 104857600 (100 MiB)" % lim, where(body, bb))
         # op receives the accumulated bytes only when non-empty and of the right content type
-        ops = S.sites_of(body, WD.op(WD.HANDLER_OP[module]))
+        hg = W.gea(hbody)
+        ops = S.sites_of(hbody, WD.op(WD.HANDLER_OP[module]))
         ct_const = WD.SERVER + ("::api::HISTORY_SEGMENT_CONTENT_TYPE" if module == "add_version" else "::api::SNAPSHOT_CONTENT_TYPE")
-        emp = [a for a in g.atoms if a[0] == "PRED" and a[1] == "bytes::bytes_mut::BytesMut::is_empty" and a[2][0][0] == "mut" and a[2][0][1] == bl]
-        cta = [a for a in g.atoms if a[0] == "EQ" and any(x[0] == "const" and x[1] == ct_const for x in (a[1], a[2]))
-               and any(x[0] == "call" and x[1] == "actix_http::http_message::HttpMessage::content_type" for x in (a[1], a[2]))]
+        emp = [at for at in hg.atoms if at[0] == "PRED" and at[1].endswith("::is_empty") and at[2][0] == acc.value_in_handler]
+        cta = [at for at in hg.atoms if at[0] == "EQ" and any(x[0] == "const" and x[1] == ct_const for x in (at[1], at[2]))
+               and any(x[0] == "call" and x[1] == "actix_http::http_message::HttpMessage::content_type" for x in (at[1], at[2]))]
         for opbb, _ in ops:
-            rep.ob("C15.EMPTY", (fn, "op-needs-nonempty-body"), len(emp) == 1 and S.all_vals(g, (opbb, "T"), ("is", emp[0], False)),
-                   "the operation is called only when body.is_empty() is false", where(body, opbb))
-            rep.ob("C15.CTYPE", (fn, "op-needs-content-type"), len(cta) == 1 and S.all_vals(g, (opbb, "T"), ("is", cta[0], True)),
-                   "the operation is called only when the request content type equals %s" % ct_const.split("::")[-1], where(body, opbb))
+            rep.ob("C15.EMPTY", (hfn, "op-needs-nonempty-body"), len(emp) == 1 and S.all_vals(hg, (opbb, "T"), ("is", emp[0], False)),
+                   "the operation is called only when body.is_empty() is false", where(hbody, opbb))
+            rep.ob("C15.CTYPE", (hfn, "op-needs-content-type"), len(cta) == 1 and S.all_vals(hg, (opbb, "T"), ("is", cta[0], True)),
+                   "the operation is called only when the request content type equals %s" % ct_const.split("::")[-1], where(hbody, opbb))
     rep.ob(rule, ("siblings", "same-limit"), len(maxes) == 2 and len(set(maxes.values())) == 1,
            "size limits of the two write handlers: %s (must agree)" % maxes)
 
 
-def _is_len_sum(t, body_local_idx, chunk):
+def _is_len_sum(t, body_local_idx, chunk, len_name="bytes::bytes_mut::BytesMut::len"):
     """t is len(body) + len(chunk) (checked or unchecked add)."""
     if t[0] == "field" and t[2] == "0":
         t = t[1]
     if not (t[0] == "binop" and t[1] in ("Add", "AddWithOverflow", "AddUnchecked")):
         return False
     parts = [t[2], t[3]]
-    has_body = any(p_[0] == "call" and p_[1] == "bytes::bytes_mut::BytesMut::len" and p_[3][0][0] == "mut" and p_[3][0][1] == body_local_idx for p_ in parts)
+    has_body = any(p_[0] == "call" and p_[1] == len_name and p_[3][0][0] == "mut" and p_[3][0][1] == body_local_idx for p_ in parts)
     has_chunk = any(p_[0] == "call" and p_[1] in ("bytes::bytes::Bytes::len",) and p_[3][0] == chunk for p_ in parts)
     return has_body and has_chunk
 
